@@ -274,6 +274,36 @@ func checkC18(c *Ctx) {
 	}
 	_ = absentRoot
 	_ = presentRoot
+	// R18.9 upkeep is complete whenever it reports success: a path on which the directory exists and nil is returned has
+	// walked the factory tree (an early `return nil` of another step - the blacklist created - must not end the run before)
+	{
+		n, bad := 0, ""
+		for _, p := range paths {
+			if p.End != "return" || len(p.Ret) != 1 {
+				continue
+			}
+			if !p.Ret[0].IsNil() {
+				continue
+			}
+			missing, tested := dirMissingOnPath(p, configDir)
+			if tested && missing {
+				continue
+			}
+			n++
+			walked := false
+			for _, e := range p.Effects {
+				if e.Kind == "call" && e.Callee != nil && calleeName(e.Callee) == "io/fs.WalkDir" {
+					if root, ok := e.Args[1].IsStringConst(); ok && strings.HasPrefix(root, configDir+"/factory") {
+						walked = true
+					}
+				}
+			}
+			if !walked && bad == "" {
+				bad = "a path returns success with the directory present without having walked the factory tree: " + truncate(p.String(), 200)
+			}
+		}
+		c.Check(bad == "" && n > 0, "R18.9", "updateHIDIConfiguration/success-only-after-the-factory-walk", pos, fmt.Sprintf("%d successful path(s) with the directory present, each after the factory walk", n), bad+ifs(n == 0, "no successful path with the directory present found"))
+	}
 	if !c.Require(absentCB != nil && presentCB != nil, "R18.2", "updateHIDIConfiguration/callbacks", "the two walk callbacks (absent / present) were not found") {
 		return
 	}
@@ -299,6 +329,7 @@ func checkC18(c *Ctx) {
 	}
 	ruleEmbedCoversTemplate(c, configDir)
 	c.MinCount("R18.8", 1)
+	c.MinCount("R18.9", 1)
 	c.MinCount("R18.1", 5)
 	c.MinCount("R18.5", 2)
 	c.MinCount("R18.6", 2)
